@@ -84,16 +84,17 @@ class Histories(Stream):
         return (80, 30) if tier == 'quick' else (800, 40)
 
     def gen(self, rng, tier):
+        # lazily: the framework's search loop checks its time budget between cases
         n, maxops = self.sizes(tier)
-        out = []
         for k in range(n):
             fl = 'exp' if rng.random() < 0.55 else 'sub'
             nops = rng.choice([maxops, maxops, maxops // 2, maxops // 3 + 2])
             case, steps = GN.gen_history(rng, fl, nops, vocab(), invalid=self.invalid, avoid=self.avoid)
             # the generating run IS a run of the real API on this history: keep its observations
+            if len(self._cache) > 4000:
+                self._cache.clear()
             self._cache[json.dumps(case)] = steps
-            out.append(case)
-        return out
+            yield case
 
     def corpus(self):
         out = []
